@@ -19,8 +19,8 @@ for a, b, c, d, e in itertools.product([False, True], repeat=5):   # same order 
 RULE = ("configuration cases = source {dataset, sample, slow, http remote, http remote stalling mid-body} x transform {none, js, js with parallelism 10 on pages of 15, js whose transform stage panics (injected by the harness), js that returns no entity, a JavascriptTransform block without code} x sink "
         "{devnull, dataset, dataset that does not exist} x trigger {cron, onchange} x job type x handler set {none, log, rerun, "
         "log+rerun, unknown type, 'Log'} (+ kill for the slow source and the http remotes, which stall when the job is to be killed): the whole lattice (thorough, 3456 configurations) or the "
-        "witnesses plus a PRNG sample of 55 (quick), each through Scheduler.AddJob and the real trigger path in its own process; "
-        "barrier cases = 2-8 requesters for ONE job id (mixed flavours) released together by a spinning gate, 20000 (quick) / 100000 (thorough) rounds each, calling raffle.borrowTicket directly; per round the number of tickets held at once; "
+        "witnesses plus a PRNG sample of 45 (quick), each through Scheduler.AddJob and the real trigger path in its own process; "
+        "barrier cases = 2-8 requesters for ONE job id (mixed flavours) released together by a spinning gate, 10000 (quick) / 100000 (thorough) rounds each, calling raffle.borrowTicket directly; per round the number of tickets held at once; "
         "raffle cases = pool sizes x job objects (ids shared between objects, both kinds) x 4-12 goroutines x 20-60 Run calls each; "
         "non-trivial = a wrapper is installed or the run does not succeed (configuration) / at least one refused ticket (raffle)")
 TRUSTED = [
@@ -100,8 +100,8 @@ def witness_cases():
         raffle(1, 2, [(0, False), (0, True), (1, False), (2, False), (3, True), (3, True)], 8, 40),
         raffle(5, 10, [(0, False), (0, False), (1, True), (1, False)], 6, 30),
         # simultaneous requests for ONE job id released by a spinning gate: never two tickets at once
-        barrier(2, 3, [False, True, False, True, False, False, True, False], 20000),
-        barrier(5, 10, [False, False], 20000),
+        barrier(2, 3, [False, True, False, True, False, False, True, False], 10000),
+        barrier(5, 10, [False, False], 10000),
         # pool limits with sizes that differ (configured through the environment like the hub): 6 fullsync jobs with different
         # ids ask together, never more than JOBS_MAX_FULLSYNC of them hold a ticket; the same for the incremental pool
         barrier(2, 5, [True] * 6, 3000, True), barrier(4, 2, [False] * 6, 3000, True),
@@ -143,9 +143,9 @@ def gen(rng, tier):
     if tier == "thorough":
         return list(lattice()) + gen_raffle(rng, 40) + gen_barrier(rng, 6, 100000)
     lat = list(lattice())
-    n = 55 if tier == "quick" else 200
+    n = 45 if tier == "quick" else 200
     out = [lat[rng.below(len(lat))] for _ in range(n)]
-    return out + gen_raffle(rng, 12 if tier == "quick" else 40) + gen_barrier(rng, 1 if tier == "quick" else 4, 20000)
+    return out + gen_raffle(rng, 12 if tier == "quick" else 40) + gen_barrier(rng, 1 if tier == "quick" else 4, 10000)
 
 
 DIED = {"accepted": False, "live": "died", "result": "none", "stored": "none", "ticket": False, "log": [], "finalF": -1,
